@@ -898,6 +898,11 @@ impl MerkleTree {
                     instructions.push(instruction);
                 }
                 Either::Right(node) => {
+                    if !instructions.is_empty() {
+                        // The length of an earlier root is not known yet, so `bytes` is not
+                        // relative to this root: just keep collecting what needs to be read.
+                        continue;
+                    }
                     if bytes == node.length {
                         return Ok(Either::Right(root));
                     }
@@ -1010,6 +1015,11 @@ impl MerkleTree {
                     }
                 }
             }
+        }
+        if !instructions.is_empty() {
+            // The offset and length checks above have not been made yet: searching the tree
+            // now would use an unchecked, unadjusted byte position.
+            return Ok(Either::Left(instructions));
         }
         let instructions_or_result = self.seek_trusted_tree(root, bytes, nodes)?;
         match instructions_or_result {
